@@ -323,3 +323,80 @@ Proof.
   intros c hist H Hp. apply validity_history_independent_partial; [exact Hp|].
   apply vguard_all_zero; exact H.
 Qed.
+
+(** ** the exact theorem under the guard of the property text: default
+    configuration, pubkey conversions on one side of the formatting fork, no
+    address rejected with two different errors *)
+Lemma spec_under_all_zero : forall c a h h', all_zero c = true -> spec_under c a h = spec_under c a h'.
+Proof.
+  intros c a h h' H. unfold spec_under.
+  rewrite (spec_valid_all_zero c a h h' H). rewrite !(enabled_all_zero c _ H). reflexivity.
+Qed.
+
+Lemma fmt_same_side : forall c id h h' raw,
+  is_fork h (c_ffmt c) = is_fork h' (c_ffmt c) -> fmt c id h raw = fmt c id h' raw.
+Proof. intros c id h h' raw E. unfold fmt. rewrite E. reflexivity. Qed.
+
+Lemma key_eqb_true : forall x1 x2 y1 y2,
+  key_eqb (Some (x1, x2)) (Some (y1, y2)) = true -> x1 = y1 /\ x2 = y2.
+Proof.
+  intros x1 x2 y1 y2 H. unfold key_eqb in H. apply andb_true_iff in H as [H1 H2].
+  apply N.eqb_eq in H1, H2. split; assumption.
+Qed.
+
+Lemma key_eqb_none_r : forall k, key_eqb k None = false.
+Proof. intros [[x y]|]; reflexivity. Qed.
+
+Lemma consistent_default : forall c side prev o,
+  all_zero c = true -> fmt_side_b c side prev = true -> fmt_side_b c side [o] = true ->
+  consistent_with c prev o = true.
+Proof.
+  intros c side prev o Hz Hs Ho. unfold consistent_with. apply forallb_forall. intros o' Hin.
+  unfold fmt_side_b in Hs. rewrite forallb_forall in Hs. specialize (Hs o' Hin).
+  cbn [fmt_side_b forallb] in Ho. rewrite andb_true_r in Ho.
+  destruct (key_eqb (op_key c o) (op_key c o')) eqn:Hk; [|reflexivity].
+  cbn [negb orb].
+  assert (ErrCase : forall a h a' h', a = a' ->
+            ans_eqb (AErr (spec_under c a h)) (AErr (spec_under c a' h')) = true).
+  { intros a h a' h' <-. cbn [ans_eqb]. rewrite (spec_under_all_zero c a h h' Hz). apply err_eqb_refl. }
+  destruct o as [a h|a h|d p h|k h]; destruct o' as [a' h'|a' h'|d' p' h'|k' h'];
+    cbn [op_key] in Hk; try discriminate Hk;
+    repeat match type of Hk with
+           | context [if ?b then _ else _] => destruct b eqn:?
+           | context [match ?x with Some _ => _ | None => _ end] => destruct x eqn:?
+           end;
+    try discriminate Hk; try (rewrite key_eqb_none_r in Hk; discriminate Hk);
+    apply key_eqb_true in Hk as [K1 K2];
+    try (cbn [op_under]; apply ErrCase; exact K2);
+    try (exfalso; lia).
+  (* two pubkey conversions through the same driver cache *)
+  assert (Hid : resolve_drv c d = resolve_drv c d') by lia. subst p'.
+  cbn [op_under spec_answer].
+  repeat match goal with H : negb _ = false |- _ => rewrite H; clear H end.
+  match goal with H : c_raw c (resolve_drv c d) p = Some _ |- _ => rewrite H; rename H into R1 end.
+  match goal with H : c_raw c (resolve_drv c d') p = Some _ |- _ => rewrite H; rename H into R2 end.
+  rewrite Hid in R1. rewrite R1 in R2. inversion R2; subst.
+  apply Bool.eqb_prop in Ho, Hs.
+  rewrite Hid. cbn [ans_eqb]. rewrite (fmt_same_side c _ h h' _) by congruence.
+  apply (proj2 (bytes_eqb_eq _ _)). reflexivity.
+Qed.
+
+Lemma guard_default_gen : forall c side ops prev,
+  all_zero c = true -> fmt_side_b c side prev = true -> fmt_side_b c side ops = true ->
+  all_unambiguous c ops = true -> guard_from c prev ops = true.
+Proof.
+  intros c side ops. induction ops as [|o tl IH]; intros prev Hz Hp Ho Hu; [reflexivity|].
+  simpl in Ho, Hu. apply andb_true_iff in Ho as [Ho1 Ho2]. apply andb_true_iff in Hu as [Hu1 Hu2].
+  simpl. rewrite Hu1. simpl.
+  rewrite (consistent_default c side prev o Hz Hp); [|simpl; rewrite Ho1; reflexivity]. simpl.
+  apply IH; try assumption. simpl. rewrite Ho1. exact Hp.
+Qed.
+
+Theorem default_config_exact : forall c side hist,
+  all_zero c = true -> fmt_side_b c side (map fst hist) = true ->
+  all_unambiguous c (map fst hist) = true -> perms_ok c hist ->
+  run c st0 hist = map (spec_answer c) (map fst hist).
+Proof.
+  intros c side hist Hz Hs Hu Hp. apply history_independent_partial; [exact Hp|].
+  apply (guard_default_gen c side); [exact Hz|reflexivity|exact Hs|exact Hu].
+Qed.
